@@ -73,11 +73,17 @@ def strip_comments(text):
     return "".join(out)
 
 
-def lint():
-    """No Admitted/admit/Axiom/Parameter/... anywhere; Variable/Hypothesis only
-    inside a Section.  Returns a list of problems (empty = clean)."""
+def lint(cid=None):
+    """No Admitted/admit/Axiom/Parameter/... ; Variable/Hypothesis only inside a
+    Section.  With `cid`, only Props/<cid>.v and its dependency cone are
+    scanned (what the property's theorems rest on); without, every file.
+    Returns a list of problems (empty = clean)."""
     problems = []
-    for rel in all_sources():
+    if cid is None:
+        files = all_sources()
+    else:
+        files = ["Props/%s.v" % cid] + _vfile_deps("Props/%s.v" % cid)
+    for rel in files:
         text = strip_comments(open(os.path.join(env.COQ, rel)).read())
         for m in FORBIDDEN.finditer(text):
             line = text.count("\n", 0, m.start()) + 1
@@ -131,13 +137,13 @@ def _vfile_deps(rel):
         if not os.path.exists(path):
             continue
         text = strip_comments(open(path).read())
-        for m in re.finditer(r"From\s+Verif\s+Require\s+(?:Import|Export)?\s*([^.]*(?:\.[A-Za-z_][^.\s]*)*)\.", text):
+        for m in re.finditer(r"From\s+Verif\s+Require\s+(?:Import\s+|Export\s+)?(.*?)\.(?=\s|$)", text, re.S):
             for name in m.group(1).split():
                 cand = name.replace(".", "/") + ".v"
                 if cand not in seen and os.path.exists(os.path.join(env.COQ, cand)):
                     seen.append(cand)
                     todo.append(cand)
-        for m in re.finditer(r"Require\s+(?:Import|Export)?\s+((?:Verif\.[A-Za-z_.0-9]+\s*)+)\.", text):
+        for m in re.finditer(r"(?<!Verif )Require\s+(?:Import\s+|Export\s+)?((?:Verif\.[A-Za-z_.0-9]+?\s+)*Verif\.[A-Za-z_.0-9]+?)\.(?=\s|$)", text, re.S):
             for name in m.group(1).split():
                 cand = name[len("Verif."):].replace(".", "/") + ".v"
                 if cand not in seen and os.path.exists(os.path.join(env.COQ, cand)):
@@ -163,20 +169,35 @@ def build_props(cid, timeout=1500, clean_cone=False):
     text = strip_comments(open(path).read())
     res["theorems"] = THEOREM_RE.findall(text)
     printed = PRINT_RE.findall(text)
-    with Lock():
-        regen_project()
-        victims = [rel]
-        if clean_cone:
-            victims += _vfile_deps(rel)
-        for v in victims:
+    if clean_cone:
+        # thorough tier: clean out-of-tree rebuild of the whole cone in a scratch
+        # directory (does not disturb the shared incremental tree)
+        import shutil
+        work = env.subdir("cone-" + cid)
+        cone = [rel] + _vfile_deps(rel)
+        for v in cone:
+            dst = os.path.join(work, v)
+            os.makedirs(os.path.dirname(dst), exist_ok=True)
+            shutil.copyfile(os.path.join(env.COQ, v), dst)
+        with open(os.path.join(work, "_CoqProject"), "w") as f:
+            f.write("-Q . Verif\n-arg -w -arg -notation-overridden,-deprecated-hint-without-locality,-deprecated-instance-without-locality\n" + "\n".join(cone) + "\n")
+        subprocess.run(["coq_makefile", "-f", "_CoqProject", "-o", "Makefile"], cwd=work, check=True,
+                       stdout=subprocess.PIPE, stderr=subprocess.STDOUT)
+        cmd = ["timeout", str(timeout), "make", "-j16", rel + "o"]
+        res["cmd"] = "clean out-of-tree rebuild: coq_makefile + make %so over %d files (coqc 8.16.1, full .vo)" % (rel, len(cone))
+        res["workdir"] = work
+        p = subprocess.run(cmd, cwd=work, stdout=subprocess.PIPE, stderr=subprocess.STDOUT, text=True)
+    else:
+        with Lock():
+            regen_project()
             for ext in (".vo", ".glob", ".vos", ".vok"):
                 try:
-                    os.unlink(os.path.join(env.COQ, v[:-2] + ext))
+                    os.unlink(os.path.join(env.COQ, rel[:-2] + ext))
                 except OSError:
                     pass
-        cmd = ["timeout", str(timeout), "make", "-j16", rel + "o"]
-        res["cmd"] = "make -C coq %so  (coqc 8.16.1, full .vo build of the dependency cone)" % rel
-        p = subprocess.run(cmd, cwd=env.COQ, stdout=subprocess.PIPE, stderr=subprocess.STDOUT, text=True)
+            cmd = ["timeout", str(timeout), "make", "-j16", rel + "o"]
+            res["cmd"] = "make -C coq %so  (coqc 8.16.1, full .vo build of the dependency cone)" % rel
+            p = subprocess.run(cmd, cwd=env.COQ, stdout=subprocess.PIPE, stderr=subprocess.STDOUT, text=True)
     res["output"] = p.stdout
     res["ok"] = p.returncode == 0
     if not res["ok"]:
@@ -240,10 +261,13 @@ def allowed_axioms():
     return out
 
 
-def coqchk(cid, timeout=3000):
-    with Lock():
-        cmd = ["timeout", str(timeout), "coqchk", "-silent", "-o", "-Q", ".", "Verif", "Verif.Props.%s" % cid]
-        p = subprocess.run(cmd, cwd=env.COQ, stdout=subprocess.PIPE, stderr=subprocess.STDOUT, text=True)
+def coqchk(cid, timeout=3000, workdir=None):
+    cmd = ["timeout", str(timeout), "coqchk", "-silent", "-o", "-Q", ".", "Verif", "Verif.Props.%s" % cid]
+    if workdir:
+        p = subprocess.run(cmd, cwd=workdir, stdout=subprocess.PIPE, stderr=subprocess.STDOUT, text=True)
+    else:
+        with Lock():
+            p = subprocess.run(cmd, cwd=env.COQ, stdout=subprocess.PIPE, stderr=subprocess.STDOUT, text=True)
     return p.returncode == 0, p.stdout
 
 
